@@ -349,6 +349,41 @@ def multicall_late_job(ctx, c, rng):
                     {"ran": ran, "results_first_batch": r1, "results_second_batch": r2})
 
 
+def history_overlap(ctx, c, rng):
+    """Two proxies that share ONE History (a session log) with exchanges that overlap in time: while the first proxy's
+    exchange is in progress, the application makes a call through the second one.  Every request and every response
+    text that was exchanged is in the History; nothing else is (no placeholder, no duplicate)."""
+    import jsonrpclib
+    from jsonrpclib.history import History
+    if c.cell[1] != "bare":
+        return
+    fx = c.fx
+    hist = History()
+    ta, tb = LoopbackTransport(fx), LoopbackTransport(fx)
+    cfg = c.proxy._config
+    pa = jsonrpclib.ServerProxy("http://loopback/", transport=ta, version=c.cell[0], config=cfg, history=hist)
+    pb = jsonrpclib.ServerProxy("http://loopback/", transport=tb, version=c.cell[0], config=cfg, history=hist)
+    c.planned.clear()
+    c.planned.extend(["inner", "outer"])
+    case = {"cell": list(c.cell), "style": "shared-history-overlapping-exchanges"}
+    ctx.case((c.cell, "shared-history-overlap", rng.random()), nontrivial=True)
+    ctx.count("judged:shared-history-overlap")
+    try:
+        ta.during = lambda: pb.f("b")
+        pa.f("a")
+    except BaseException as ex:  # noqa
+        ctx.violate("history:shared-history:raised-%s" % type(ex).__name__, case, {"raised": ex})
+        return
+    sent = sorted(x[0] for x in ta.exchanges + tb.exchanges)
+    received = sorted(x[1] for x in ta.exchanges + tb.exchanges)
+    got_req = sorted(repr(x) for x in hist.requests)
+    got_resp = sorted(repr(x) for x in hist.responses)
+    if got_req != sorted(repr(x) for x in sent) or got_resp != sorted(repr(x) for x in received):
+        ctx.violate("history:overlapping-exchanges-on-a-shared-History-not-recorded-exactly", case,
+                    {"history_requests": hist.requests, "exchanged_requests": sent,
+                     "history_responses": hist.responses, "exchanged_responses": received})
+
+
 def multicall_method_reuse(ctx, c, rng):
     """The object returned by one attribute access on a batch is CALLED twice (m = batch.f; m(1); m(2)): two calls."""
     import jsonrpclib
@@ -392,6 +427,7 @@ def run(ctx):
             for i in range(3):
                 multicall_method_reuse(ctx, c, rng)
                 multicall_late_job(ctx, c, rng)
+                history_overlap(ctx, c, rng)
             for i in range(per):
                 r = rng.random()
                 if r < 0.7:
